@@ -196,7 +196,10 @@ class GL:
         if ty == FLOAT:
             v, s = self.pick(gen._FLOAT_SPELL)
             return M.Lit(v, FLOAT, s)
-        v = self.d(st.integers(0, 9) if ty == UINT else st.integers(-9, 12))
+        if self.chance(5):
+            v = self.pick([16777217, 33554433, 123456789, 2147483647, 65536])
+        else:
+            v = self.d(st.integers(0, 9) if ty == UINT else st.integers(-9, 12))
         return M.Lit(v, INT, str(v))
 
     def scalar(self, depth, want=None):
